@@ -17,6 +17,7 @@ CONSTANT MaxItems
 \* string literal contents: tag delimiters, #, backslashes, newlines, quotes, multi-byte are inert
 Contents == { <<"a">>, <<"PCT", ">">>, <<"<", "PCT">>, <<"<", "PCT", "=", " ", "1", " ", "PCT", ">">>, <<"HASH", " ", "x">>,
               <<"BSL", "n">>, <<"NL", "b">>, <<"QUOT">>, <<"QUOT", "QUOT">>, <<"a", "QUOT", "b", "QUOT">>, <<"MB", "BQ">>, <<"LBR", "RBR">>, <<>>,
+              <<"a", "BAD", "QUOT", "b", "BAD">>,          \* bytes that are not valid UTF-8 next to an (escaped) quote: bytes are bytes
               <<"c", "BSL">>, <<"BSL", "QUOT", "d">> }     \* only spellable between back quotes: raw, a backslash hides nothing
 \* a back-quoted literal cannot contain a back quote; a double-quoted one cannot end in a backslash
 \* or contain backslash-quote as two characters of its VALUE (no spelling exists)
@@ -34,7 +35,7 @@ Items ==
   \cup { [k |-> "cmt", s |-> c] : c \in { <<"s", "e", "e", " ", "HASH", "1", "2">>, <<"s", "a", "y", " ", "QUOT", "h", "i">>, <<"i", "t", "APOS", "s", " ", "BQ", "x">>,
                                           <<"LBR", " ", "i", "f", " ", "(">>, <<"NL", "HASH", " ", "x", "NL">>, <<"PCT", " ", "RBR", " ", "<">> } }
   \cup { [k |-> o, s |-> <<>>] : o \in {"num", "var", "silentexpr", "silentstr", "let", "assign", "silentif", "silentfor", "comment", "silentraw", "silentcall", "fnout", "silentfn",
-                                       "escopen", "bslemit", "false", "zero", "emptystr", "nilv", "arrvar", "arrpair", "twoblk", "nestblk", "blkloop"} }
+                                       "escopen", "bslemit", "false", "zero", "emptystr", "nilv", "arrvar", "arrpair", "twoblk", "nestblk", "blkloop", "iterbrk", "arrbrk"} }
 
 \* the statement(s) an item stands for, and what it contributes to the output
 ItemStmts(it) ==
@@ -72,6 +73,9 @@ ItemStmts(it) ==
     [] it.k = "nestblk"    -> <<Emit(CallB("blk", <<>>, <<Emit(CallB("blk", <<>>, <<Text(<<"o", "n", "e">>)>>)), Text(<<" ">>), Emit(CallB("blk", <<>>, <<Text(<<"t", "w", "o">>)>>)), Text(<<" ">>),
                                                           Emit(CallB("blk", <<>>, <<Text(<<"3">>)>>))>>))>>
     [] it.k = "blkloop"    -> <<Emit(For("", "v", Arr(<<Str(<<"x">>), Str(<<"y", "y">>)>>), <<Text(<<"(">>), Emit(CallB("blk", <<>>, <<Emit(Id("v"))>>)), Text(<<")">>)>>))>>
+    \* a loop (over an iterator / an array) left with break AFTER the iteration has produced text and a value: they are output
+    [] it.k = "iterbrk"    -> <<Emit(For("", "v", Call("range", <<IntL(1), IntL(5)>>), <<Text(<<"[">>), Emit(Id("v")), Text(<<"]">>), Code(If(Bin("==", Id("v"), IntL(2)), <<Text(<<"s">>), Code(Brk)>>)), Text(<<",">>)>>))>>
+    [] it.k = "arrbrk"     -> <<Emit(For("", "v", Arr(<<IntL(1), IntL(2), IntL(3)>>), <<Text(<<"[">>), Emit(Id("v")), Text(<<"]">>), Code(If(Bin("==", Id("v"), IntL(2)), <<Text(<<"s">>), Code(Brk)>>)), Text(<<",">>)>>))>>
     [] it.k = "fnout"      -> <<Emit(Call("pick", <<IntL(1)>>))>>
     [] it.k = "silentfn"   -> <<Code(Call("pick", <<IntL(1)>>))>>
 \* contribution according to the statement of C02 (w is "W" once an assign item has run)
@@ -87,6 +91,7 @@ ItemOut(it, assigned) ==
     [] it.k = "zero"  -> <<"0">>
     [] it.k = "arrvar" -> <<"x", "y">>
     [] it.k = "arrpair" -> <<"x", "y", "x", "y">>
+    [] it.k \in {"iterbrk", "arrbrk"} -> <<"[", "1", "]", ",", "[", "2", "]", "s">>
     [] it.k = "twoblk"  -> <<"[", "A", "A", "A", "|", "B", "B", "]">>
     [] it.k = "nestblk" -> <<"o", "n", "e", " ", "t", "w", "o", " ", "3">>
     [] it.k = "blkloop" -> <<"(", "x", ")", "(", "y", "y", ")">>
